@@ -108,6 +108,10 @@ fn dispatch(ctx: &Ctx) -> bool {
         "C36" => props::pubprops::run_c36(ctx),
         "C24" => props::parsers::run(ctx),
         "C35" => props::jsonprops::run(ctx),
+        "C19" => props::poolprops::run(ctx, props::poolprops::Which::C19),
+        "C20" => props::poolprops::run(ctx, props::poolprops::Which::C20),
+        "C21" => props::poolprops::run(ctx, props::poolprops::Which::C21),
+        "C22" => props::poolprops::run(ctx, props::poolprops::Which::C22),
         "C28" => props::config::run_c28(ctx),
         "C29" => props::config::run_c29(ctx),
         "C25" => props::encodings::run_c25(ctx),
@@ -147,6 +151,7 @@ fn run_replay(id: &str, path: &PathBuf) -> i32 {
         Some(k) if k.starts_with("c25_") || k.starts_with("c26_") || k.starts_with("c27_") => props::encodings::replay(case),
         Some(k) if k.starts_with("c28_") || k.starts_with("c29") => props::config::replay(case),
         Some(k) if k.starts_with("c35_") => props::jsonprops::replay(case),
+        Some("pool_history") => props::poolprops::replay(case, id),
         Some("c24") | Some("c24_pilen") => props::parsers::replay(case),
         other => Err(format!("no replay handler for kind {:?}", other)),
     };
